@@ -169,7 +169,7 @@ func runExtra(cfg gatedCfg) (res gatedResult) {
 		o.Pattern = o.pat.String()
 		step("after Shutdown+Wait: %s counter=%d queue=%d ran=%d accepted=%d finished=%d", o.Pattern, o.Counter, o.Queue, o.Ran, o.Accepted, o.Finished)
 		res.Findings = append(res.Findings, classify(*o)...)
-		if o.WaitReturned && o.ShutdownReturned && cfg.Kind == "cstart" && (o.pat.NDisp+o.pat.ReadLoop+o.pat.Shutdown+o.pat.InTask+o.pat.Other) > 0 && len(res.Findings) == 0 {
+		if o.WaitReturned && o.ShutdownReturned && cfg.Kind == "cstart" && o.pat.total() > 0 && len(res.Findings) == 0 {
 			viol("start/pool-goroutines-left-after-shutdown", "ShutdownComplete.Wait() returned but pool goroutines are still alive: %s", o.Pattern)
 		}
 	}
@@ -431,8 +431,8 @@ func runExtra(cfg gatedCfg) (res gatedResult) {
 		if len(res.Findings) > 0 {
 			return
 		}
-		if p.NDisp != 1 || p.ReadLoop != W || p.total() != W+1 {
-			viol("start/pool-started-twice", "after %d concurrent Start() calls on a %s pool there are %d dispatcher(s) and %d idle worker(s) (%d pool goroutines) instead of 1 dispatcher and %d workers: %s", k, cfg.Variant, p.NDisp, p.ReadLoop, p.total(), W, p)
+		if p.NDisp > 1 || p.InTask != 0 || p.total() != W+1 {
+			viol("start/pool-started-twice", "after %d concurrent Start() calls on a %s pool there are %d pool goroutines (%d identified as dispatcher) instead of %d (1 dispatcher + %d workers): %s", k, cfg.Variant, p.total(), p.NDisp, W+1, W, p)
 			return
 		}
 		for i := 0; i < 2*min(W, 8)+3; i++ {
